@@ -576,7 +576,7 @@ def gen_case(rng, tier, i):
             steps.append([call, rng.pick(ID_POOL) if rng.chance(0.9) else rng.pick(ODD_NAMES)])
         elif call == "set":
             steps.append([call, rng.randrange(12), rng.pick(FIELD_POOL), rng.pick(VALUE_POOL) if rng.chance(0.9) else rng.pick(ODD_NAMES)])
-        elif call in ("get", "delete", "field_to_s"):
+        elif call in ("get", "delete", "field_to_s", "validate_field"):
             steps.append([call, rng.randrange(12), rng.pick(FIELD_POOL)])
         elif call == "validate_line":
             steps.append([call, rng.randrange(12)])
